@@ -5,6 +5,7 @@ from_csv), Persist.lean (save / load, is_within_directory, safe_extract). Specif
 -/
 import SkNet.Lemmas.Ingest
 import SkNet.Lemmas.Persist
+import SkNet.Lemmas.Csv
 import SkNet.Model.Csv
 import SkNet.Model.Persist
 
@@ -326,6 +327,77 @@ theorem unweighted_binary [DecidableEq α] (f : Flags) (hw : f.weighted = false)
   split
   · exact key _
   · exact key _
+
+/-! ## ★ csv_as_rows -/
+
+/-- **csv_as_rows (delimiter given).** A file made of comment lines followed by at most 100 data rows, read with
+    the delimiter `d` given as `delimiter=` or through its alias `sep=` (any character), whose rows all split into
+    two fields or all into three, without blanks around the fields, comment characters inside the rows, blank rows,
+    or numeric identifiers that are not integers: `from_csv` returns exactly what `from_edge_list` returns on the
+    list of its rows (numeric fast path and string branch alike) — for all flags. -/
+theorem csv_as_rows_given (num : String → Option Rat) (header body : List String)
+    (a : CsvArgs) (f : Flags) (d : Char)
+    (hgiven : csvGiven a = some d)
+    (hlay : a.layout = none ∨ a.layout = some .edgeList)
+    (hh : ∀ s ∈ header, isCommentLine a.comments s = true)
+    (hclean : CleanFile d (lastComment (a.comments.headD '#') header) a.comments header body)
+    (hrs : ∀ s ∈ body, rstrip s = s)
+    (hne : body ≠ []) (hn : body.length ≤ 100)
+    (hshape : (∀ s ∈ body, (splitAt d s).length = 2) ∨ (∀ s ∈ body, (splitAt d s).length = 3))
+    (hint : ∀ s ∈ body, ∀ r, (num ((splitAt d s).getD 0 "") = some r → r.den = 1) ∧
+                              (num ((splitAt d s).getD 1 "") = some r → r.den = 1)) :
+    fromCsv num (header ++ body) a f = fromEdgeList (intOfNum num) (tuplesOf num (body.map (splitAt d))) f :=
+  fromCsv_given _ num header body a f d hgiven hlay hh hclean hrs hne hn hshape hint
+
+/-- **csv_as_rows (delimiter inferred).** The same when no delimiter is given and one of the candidates
+    tab / comma / semicolon / space separates the fields while the others do not occur in the rows. -/
+theorem csv_as_rows_inferred (num : String → Option Rat) (header body : List String)
+    (a : CsvArgs) (f : Flags) (k : Nat) (hk : k < 4)
+    (hgiven : csvGiven a = none)
+    (hlay : a.layout = none ∨ a.layout = some .edgeList)
+    (hh : ∀ s ∈ header, isCommentLine a.comments s = true)
+    (hclean : CleanFile (['\t', ',', ';', ' '].getD k ' ') (lastComment (a.comments.headD '#') header) a.comments
+      header body)
+    (hrs : ∀ s ∈ body, rstrip s = s)
+    (hne : body ≠ []) (hn : body.length ≤ 100)
+    (hshape : (∀ s ∈ body, (splitAt (['\t', ',', ';', ' '].getD k ' ') s).length = 2) ∨
+              (∀ s ∈ body, (splitAt (['\t', ',', ';', ' '].getD k ' ') s).length = 3))
+    (hothers : ∀ j, j < 4 → j ≠ k → ∀ row ∈ body, countChar (['\t', ',', ';', ' '].getD j ' ') row = 0)
+    (hint : ∀ s ∈ body, ∀ r,
+      (num ((splitAt (['\t', ',', ';', ' '].getD k ' ') s).getD 0 "") = some r → r.den = 1) ∧
+      (num ((splitAt (['\t', ',', ';', ' '].getD k ' ') s).getD 1 "") = some r → r.den = 1)) :
+    fromCsv num (header ++ body) a f
+      = fromEdgeList (intOfNum num) (tuplesOf num (body.map (splitAt (['\t', ',', ';', ' '].getD k ' ')))) f :=
+  fromCsv_inferred _ num header body a f k hk hgiven hlay hh hclean hrs hne hn hshape hothers hint
+
+/-- a concrete file meeting the hypotheses: one comment line, two rows `a,b,2` / `b,c,0.5` -/
+example : CleanFile ',' (lastComment '#' ["# two edges"]) ['#', '%'] ["# two edges"] ["a,b,2", "b,c,0.5"] ∧
+    (∀ s ∈ ["a,b,2", "b,c,0.5"], rstrip s = s) ∧ (∀ s ∈ ["a,b,2", "b,c,0.5"], (splitAt ',' s).length = 3) ∧
+    isCommentLine ['#', '%'] "# two edges" = true := by
+  refine ⟨⟨?_, ?_, ?_, ?_, ?_⟩, ?_, ?_, ?_⟩ <;> decide +kernel
+
+/-- **the inferred delimiter splits every scanned row consistently**: when `scan_header` picks candidate `k`
+    because it passes the test `mean > 0 and std == 0`, that character occurs the same number `c ≥ 1` of times
+    in each of the scanned rows, which all split into `c + 1` fields. -/
+theorem inferred_delimiter_consistent (delims : List Char) (body : List String) (k : Nat) (hk : k < delims.length)
+    (h : consistentCol (body.map fun row => delims.map (fun d => countChar d row)) k = true) :
+    ∃ c, 0 < c ∧ ∀ row ∈ body, countChar (delims.getD k ' ') row = c ∧
+      (splitAt (delims.getD k ' ') row).length = c + 1 :=
+  equal_counts_of_consistent delims body k hk h
+
+/-- what `scan_header` returns on comment lines followed by at most `n_scan` data rows: the number of comment
+    lines, the first character of the last one, the chosen candidate, and the layout read off the rows. -/
+theorem scan_header_clean (delims comments : List Char) (nScan : Nat) (header body : List String)
+    (hh : ∀ s ∈ header, isCommentLine comments s = true)
+    (hb : ∀ s ∈ body, isCommentLine comments s = false)
+    (hn : body.length ≤ nScan) :
+    (scanHeader (header ++ body) delims comments nScan).headerLength = header.length ∧
+    (scanHeader (header ++ body) delims comments nScan).comment = lastComment (comments.headD '#') header ∧
+    (scanHeader (header ++ body) delims comments nScan).delimiter
+      = delims.getD (chooseDelimiter delims.length (body.map fun row => delims.map (fun d => countChar d row))) ' ' ∧
+    (scanHeader (header ++ body) delims comments nScan).layout
+      = layoutOf (scanHeader (header ++ body) delims comments nScan).delimiter (body.map rstrip) :=
+  scanHeader_clean delims comments nScan header body hh hb hn
 
 /-! ## ★ save_load_roundtrip -/
 
